@@ -39,6 +39,8 @@ func cmdVerify(args []string) {
 	dump := fs.String("dump", "", "write the SMT script of the (single) function here")
 	showModel := fs.Bool("model", false, "print models of failed obligations")
 	all := fs.Bool("all", false, "verify every function that has a contract")
+	sweep := fs.String("sweep", "", "verify every function whose key contains this string")
+	quietOK := fs.Bool("q", false, "print only obligations that are not proved")
 	ov := fs.String("ov", "", "overlay: /repo/path.go=/tmp/replacement.go[,...]")
 	fs.Parse(args)
 	var overlay map[string][]byte
@@ -59,6 +61,14 @@ func cmdVerify(args []string) {
 		os.Exit(2)
 	}
 	keys := fs.Args()
+	if *sweep != "" {
+		for k := range eng.funcs {
+			if strings.Contains(k, *sweep) && !strings.Contains(k, "$") {
+				keys = append(keys, k)
+			}
+		}
+		sort.Strings(keys)
+	}
 	if *all {
 		for k, c := range eng.contracts {
 			if !c.Trusted && eng.funcs[k] != nil {
@@ -69,12 +79,15 @@ func cmdVerify(args []string) {
 	}
 	for _, k := range keys {
 		key := eng.resolveKey(k)
-		r := eng.verifyFunc(key, *timeout, 0, false, true)
+		r := safeVerify(eng, key, *timeout)
 		fmt.Printf("== %s  (gen %d ms, solve %d ms, blocks %d/%d, vacuity %s)\n", r.Name, r.GenMS, r.SolveMS, r.Blocks, r.BlocksAll, r.Vacuity)
 		for _, e := range r.Errs {
 			fmt.Println("   ERROR:", e)
 		}
 		for _, o := range r.Obs {
+			if *quietOK && o.Status == "proved" {
+				continue
+			}
 			fmt.Printf("   %-8s %-60s %s [%s] %s\n", o.Status, o.Label, o.Where, o.Solver, trunc(o.Note, 70))
 			if o.Status != "proved" && *showModel {
 				fmt.Println(indent(o.Output, "      "))
@@ -160,4 +173,13 @@ func (e *Engine) resolveKey(k string) string {
 		return cands[0]
 	}
 	return k
+}
+
+func safeVerify(eng *Engine, key string, timeout int) (r *FuncResult) {
+	defer func() {
+		if e := recover(); e != nil {
+			r = &FuncResult{Key: key, Name: displayName(key), Errs: []string{fmt.Sprintf("engine panic: %v", e)}}
+		}
+	}()
+	return eng.verifyFunc(key, timeout, 0, false, true)
 }
